@@ -142,7 +142,7 @@ class BlockSeries:
         if len(item) == n_finite and self.n_infinite:
             # Make an intermediate scalar BlockSeries that packs all finite
             # dimensions into a single item
-            if all(isinstance(element, int) for element in item):
+            if all(isinstance(element, (int, np.integer)) for element in item):
                 return BlockSeries(
                     eval=lambda *index: self[item + index],
                     shape=(),
